@@ -69,7 +69,9 @@ def site_inventory(rep, only=None):
         if sites:
             bad = [s for s in sites if not s['ok']]
             common.structural(rep, 'C06/%s/every tree-mutation site inserts fresh whitespace or removes/blanks a token under an is_whitespace guard' % q,
-                              q, not bad, {'sites': len(sites), 'bad': bad})
+                              q, not bad, {'sites': len(sites), 'bad': bad}, undecided_if_false=True)
+            # (a syntactic inventory: a site it cannot classify is UNDECIDED, not a violation - these routines are not
+            # under an SMT contract, the bounded stand-in decides for them)
 
 
 def _guarded(n, parents, fn_node):
